@@ -269,29 +269,76 @@ Example C05_example_delete_and_select :
                 /\ a = AInsertSelect MReplace "t" ["a"] "SELECT ""x"" FROM ""u"" WHERE ""x"">1").
 Proof. split; eexists; split; vm_compute; reflexivity. Qed.
 
-(* ---- beyond literal values: expressions over columns as SET values / inside criteria ---- *)
-(* The statement one would like for arbitrary value TERMS: the text the engine lexes (comments removed) still carries
-   the criterion that was given.  It is FALSE on the faithful model: Terms.render writes b - (-1) as "b"--1 (C02's
-   double-minus defect) and the engine reads everything behind it, WHERE included, as a comment.  These are the
-   known findings C05-update-set-double-minus / -where-double-minus / C05-delete-where-double-minus; the engine
-   half observes them as changed table contents. *)
-Definition C05_criterion_survives_any_value : Prop :=
-  forall c t (v : term) w st txt, dml_cls_ok c = true ->
-    run c (SUpdate (ptab t)) [KSet (CStr "a") (VTerm v); KWhere w] = Ok st -> dml_text st = Ok txt ->
-    exists sets wt, parse_dml (engine_lex txt) = Some (AUpdate t sets (Some wt)).
-Theorem C05_refuted_for_expressions : ~ C05_criterion_survives_any_value.
+(* ---- beyond literal values: ANY value terms (expressions over columns, functions, sub-queries ...) ---- *)
+(* The positional structure of the text does not depend on what the values are: for every UPDATE call list whose
+   value terms render, the text is  UPDATE "t" SET "c1"=<text of value 1>,...,"cn"=<text of value n>[ WHERE <criterion>]
+   with the pairs in call order, <text of value k> being exactly what the shared renderer (Terms.render, the function
+   C02's fragment theorem reads back to the tree) writes for the k-th given value in SET-value position, and the
+   criterion text at the very end; likewise INSERT ... VALUES with one text per given cell, row by row. *)
+Definition C05_structure_any_value : Prop :=
+  (forall c tbl cs texts wo,
+     dml_cls_ok c = true -> plain_table tbl = true -> forallb update_call_ok cs = true ->
+     sets_of_calls cs <> [] -> forallb (fun p => str_col (fst p)) (sets_of_calls cs) = true ->
+     mapM (fun p : colarg * pyval => set_value_res c tbl (where_of_calls cs) (snd (wrap_set c (snd p)))) (sets_of_calls cs) = Ok texts ->
+     where_res (upd_where_res c tbl) (where_of_calls cs) = Ok wo ->
+     exists st, run c (SUpdate tbl) cs = Ok st
+       /\ dml_text st = Ok (update_text_x (tname tbl) (combine (map (fun p => col_str (fst p)) (sets_of_calls cs)) texts) wo)
+       /\ List.length texts = List.length (sets_of_calls cs)
+       /\ (forall k p, nth_error (sets_of_calls cs) k = Some p ->
+             exists txt, nth_error texts k = Some txt
+                         /\ set_value_res c tbl (where_of_calls cs) (snd (wrap_set c (snd p))) = Ok txt))
+  /\ (forall c tbl cs texts,
+     dml_cls_ok c = true -> plain_table tbl = true -> forallb (insert_call_ok c) cs = true ->
+     forallb str_col (cols_of_calls cs) = true -> rows_of_calls cs <> [] ->
+     mapM (fun row : list pyval => mapM (fun v => ins_value_res c (snd (wrap_constant v))) row) (rows_of_calls cs) = Ok texts ->
+     exists st, run c (SInto tbl) cs = Ok st
+       /\ dml_text st = Ok (insert_text_x (mode_of_calls cs) (tname tbl) (map col_str (cols_of_calls cs)) texts)
+       /\ List.length texts = List.length (rows_of_calls cs)
+       /\ (forall r row, nth_error (rows_of_calls cs) r = Some row ->
+             exists trow, nth_error texts r = Some trow
+                          /\ mapM (fun v => ins_value_res c (snd (wrap_constant v))) row = Ok trow)).
+Theorem C05_structure_any_value_holds : C05_structure_any_value.
 Proof.
-  intros H.
-  destruct (H CSQLLite "t" (TArith OSub (TField "b" None None) (TValI (-1) None) None)
-              (TBasic CEq (TField "id" None None) (TValI 2 None) None) _ _ eq_refl eq_refl eq_refl) as (sets & wt & E).
-  vm_compute in E. discriminate E.
+  split.
+  - intros c tbl cs texts wo Hc Ht Hcs Hne Hcols Hv Hw.
+    destruct (update_structure_any c tbl cs texts wo Hc Ht Hcs Hne Hcols Hv Hw) as (st & R1 & R2).
+    destruct (mapM_bind_ok _ _ _ Hv) as [L N]. exists st. repeat split; auto.
+  - intros c tbl cs texts Hc Ht Hcs Hcols Hne Hv.
+    destruct (insert_structure_any c tbl cs texts Hc Ht Hcs Hcols Hne Hv) as (st & R1 & R2).
+    destruct (mapM_bind_ok _ _ _ Hv) as [L N]. exists st. repeat split; auto.
 Qed.
-Print Assumptions C05_refuted_for_expressions.
-Example C05_double_minus_swallows_where :
-  (match run CSQLLite (SUpdate (ptab "t")) [KSet (CStr "a") (VTerm (TArith OSub (TField "b" None None) (TValI (-1) None) None));
-                                            KWhere (TBasic CEq (TField "id" None None) (TValI 2 None) None)]
-   with Ok st => dml_text st | Err e => Err e end) = Ok "UPDATE ""t"" SET ""a""=""b""--1 WHERE ""id""=2"
-  /\ engine_lex "UPDATE ""t"" SET ""a""=""b""--1 WHERE ""id""=2" = "UPDATE ""t"" SET ""a""=""b"""
+Print Assumptions C05_structure_any_value_holds.
+
+(* The findings C05 used to list about expressions were C02's rendering defects seen through the database state:
+   b-(-1) rendered "b"--1, where the engine's lexical pre-pass (engine_lex: "--" outside quotes opens a comment) swallowed
+   the rest of the statement, WHERE included; -(a+1) rendered -"a"+1; a sub-query as SET value without parentheses.
+   They are repaired in pypika (fbde87c, 33fa91c, 5249523); the model follows through the regenerated tables.  The
+   examples state the repaired texts (a regression of the code breaks them) and, as pure string facts, what the old
+   texts meant to the engine. *)
+Definition t_of (r : res dstate) : res string := match r with Ok st => dml_text st | Err e => Err e end.
+Example C05_double_minus_repaired :
+  t_of (run CSQLLite (SUpdate (ptab "t")) [KSet (CStr "a") (VTerm (TArith OSub (TField "b" None None) (TValI (-1) None) None));
+                                            KWhere (TBasic CEq (TField "id" None None) (TValI 2 None) None)])
+  = Ok "UPDATE ""t"" SET ""a""=""b""-(-1) WHERE ""id""=2"
+  /\ engine_lex "UPDATE ""t"" SET ""a""=""b""-(-1) WHERE ""id""=2" = "UPDATE ""t"" SET ""a""=""b""-(-1) WHERE ""id""=2"
+  /\ t_of (run CSQLLite (SDelete (ptab "t"))
+             [KWhere (TBasic CEq (TArith OSub (TField "a" None None) (TValI (-1) None) None) (TValI 3 None) None)])
+     = Ok "DELETE FROM ""t"" WHERE ""a""-(-1)=3"
+  /\ t_of (run CSQLLite (SUpdate (ptab "t")) [KSet (CStr "c") (VStr "z");
+             KWhere (TBasic CEq (TArith OSub (TField "a" None None) (TNeg (TField "b" None None)) None) (TValI 3 None) None)])
+     = Ok "UPDATE ""t"" SET ""c""='z' WHERE ""a""-(-""b"")=3".
+Proof. vm_compute. repeat split; reflexivity. Qed.
+Example C05_neg_over_compound_repaired :
+  t_of (run CSQLLite (SUpdate (ptab "t"))
+          [KSet (CStr "b") (VTerm (TNeg (TArith OAdd (TField "a" None None) (TValI 1 None) None)))])
+  = Ok "UPDATE ""t"" SET ""b""=-(""a""+1)".
+Proof. vm_compute. reflexivity. Qed.
+Example C05_subquery_set_value_parenthesised :
+  t_of (run CSQLLite (SUpdate (ptab "t")) [KSet (CStr "a") (VTerm (TSub "x" "u" None)); KSet (CStr "b") (VInt 1)])
+  = Ok "UPDATE ""t"" SET ""a""=(SELECT ""x"" FROM ""u""),""b""=1".
+Proof. vm_compute. reflexivity. Qed.
+Example C05_what_the_old_texts_meant :
+  engine_lex "UPDATE ""t"" SET ""a""=""b""--1 WHERE ""id""=2" = "UPDATE ""t"" SET ""a""=""b"""
   /\ engine_lex "DELETE FROM ""t"" WHERE ""a""--1=3" = "DELETE FROM ""t"" WHERE ""a"""
   (* a "--" inside a string literal is data, not a comment *)
   /\ engine_lex "INSERT INTO ""t"" VALUES ('--c',-1)" = "INSERT INTO ""t"" VALUES ('--c',-1)".
